@@ -79,6 +79,11 @@ impl Report {
     /// Write evidence, classify violations against known findings, print the
     /// contract lines and return the process exit code.
     pub fn finish(mut self) -> i32 {
+        if std::env::var("VERIF_PLAIN_PASS").is_ok() {
+            // secondary pass of C06 in the plain profile: the parent run owns
+            // evidence and replay files
+            return if self.violations.is_empty() { 0 } else { 1 };
+        }
         let root = root();
         let wall = self.t0.elapsed().as_secs_f64();
         let known = load_known(&root.join("known_findings.json"));
